@@ -406,9 +406,8 @@ pub struct C17Stats {
 
 pub fn c17(a: &Analysis, stats: &mut C17Stats) -> Vec<Violation> {
     let mut v = vec![];
-    if a.lex_err.is_some() {
-        return v;
-    }
+    // a stream that stops decoding (C04's business in itself) is still judged on its decodable
+    // prefix: the generator's steps must line up with the opcodes the reference machine reads
     let mut m = Machine::new();
     m.lenient_redefine = true;
     let mut ev = a.op_events.iter();
@@ -503,8 +502,8 @@ pub fn c17(a: &Analysis, stats: &mut C17Stats) -> Vec<Violation> {
     if let Some(e) = ev.next() {
         v.push(Violation::new(
             "C17",
-            "trace-mismatch(none)",
-            format!("a simulated step for opcode 0x{:02x} has no opcode in the bytes", ev_opcode(e)),
+            if a.lex_err.is_some() { "trace-mismatch(undecodable)" } else { "trace-mismatch(none)" },
+            format!("a simulated step for opcode 0x{:02x} has no {}opcode in the bytes", ev_opcode(e), if a.lex_err.is_some() { "decodable " } else { "" }),
         ));
     }
     v
